@@ -394,8 +394,16 @@ def run_sim(item, only=None):
         {"st": "PS-C", "a": 2, "d": 9, "sid": "ev1", "batt": "l2c", "e": 2.0, "cap": 10.0, "init": 7.8, "pmax": 6.6},
         {"st": "PS-B", "a": 3, "d": 5, "sid": "ev2", "batt": "ideal", "e": 0.5, "cap": 3.0, "init": 1.0, "pmax": 7.0},
     ]
-    for st in starts:
-        for period in (1, 5, 8) if tier == "quick" else (1, 5, 15, 8, 45, 90):  # 8, 45, 90: periods that do not divide an hour
+    # simulations whose start is an aware (pytz-localized) datetime and which run across a daylight-saving change: simulation
+    # time is start + k x period (datetime arithmetic on the start as given)
+    import pytz
+
+    la = pytz.timezone("America/Los_Angeles")
+    aware = [la.localize(datetime(2019, 11, 3, 0, 30)), la.localize(datetime(2020, 3, 8, 0, 30)), la.localize(datetime(2019, 7, 10, 0, 30))]
+    plan = [(st, period) for st in starts for period in ((1, 5, 8) if tier == "quick" else (1, 5, 15, 8, 45, 90))]  # 8, 45, 90: periods that do not divide an hour
+    plan += [(st, period) for st in aware for period in (60, 30)]
+    for st, period in plan:
+        if True:
             ctx = {"start": st.isoformat(), "period": period}
             if only is not None and only != ctx:
                 continue
@@ -436,7 +444,7 @@ def run_sim(item, only=None):
                     break
             # ---- the simulation's tariff signal is replaced mid-run: every later answer is about the new tariff
             other_f = FILES[(FILES.index(f) + 1) % len(FILES)]
-            if starts.index(st) < 2 and all(ref_lookup(other_f, st + timedelta(minutes=period * k))[2] == 1 for k in range(14)):
+            if st in starts and starts.index(st) < 2 and all(ref_lookup(other_f, st + timedelta(minutes=period * k))[2] == 1 for k in range(14)):
                 log2 = []
                 holder = {}
                 other_t = TimeOfUseTariff(other_f)
